@@ -19,26 +19,35 @@ Definition releases (s : scn) (c : conn) : Prop :=
   kept (handle s (fuel_for c) c) = res0 /\
   (h_out (handle s (fuel_for c) c) = Returned -> h_res (handle s (fuel_for c) c) = res0).
 (* N sequential connections leave the process as it was, for all N and all mixes *)
-Definition flat (s : scn) : Prop := forall cs, Forall (in_fragment s) cs -> history s cs = res0.
+Definition flat (s : scn) : Prop := forall cs, Forall (covered s) cs -> history s cs = res0.
 
 (* [in_fragment s c]: the dialogue stays inside the modelled command set of ftp / smtp
-   (trivially true for the six other services, see C09_fragment_other_services) *)
+   (trivially true for the six other services, see C09_fragment_other_services);
+   [panic_keeps_data_conn s c]: the one defect class left in the unchanged code - an ftp session
+   that ends in a recovered panic while it holds an ACCEPTED passive data connection (ftp's own
+   Conn.Close() is not reached); [covered] = inside the fragment and outside that class *)
 Definition C09_full : Prop :=
-  (forall s c, in_fragment s c -> finishes s c /\ releases s c) /\ (forall s, flat s).
+  (forall s c, in_fragment s c -> finishes s c) /\
+  (forall s c, covered s c -> releases s c) /\ (forall s, flat s).
 
 Theorem C09_terminates : forall s c, in_fragment s c -> finishes s c.
 Proof. exact handle_ends. Qed.
 
-Theorem C09_released : forall s c, in_fragment s c -> releases s c.
-Proof. intros s c H; split; [apply handle_kept; exact H|apply handle_returned_clean]. Qed.
+Theorem C09_released : forall s c, covered s c -> releases s c.
+Proof. intros s c [H Hn]; split; [apply handle_kept; assumption|apply handle_returned_clean]. Qed.
+
+(* the class is real (refutation of the unrestricted statement) and costs exactly one descriptor
+   per such session; the proposed repair is a deferred ftpConn.Close() in ftp's Handle *)
+Theorem C09_released_ftp_panic_refuted : forall s c,
+  panic_keeps_data_conn s c -> kept (handle s (fuel_for c) c) = mkRes 0 0 1.
+Proof. exact panic_keeps_one. Qed.
 
 Theorem C09_history_flat_all : forall s, flat s.
 Proof. intros s cs; apply history_zero. Qed.
 
 Theorem C09_full_holds : C09_full.
 Proof.
-  split; [|exact C09_history_flat_all].
-  intros s c H; split; [apply C09_terminates|apply C09_released]; exact H.
+  split; [exact C09_terminates|]. split; [exact C09_released|exact C09_history_flat_all].
 Qed.
 
 (* ---- what is behind it, service by service ---- *)
@@ -87,8 +96,7 @@ Proof. exact handle_ftp_ends. Qed.
 
 (* smtp returns (or the dialogue leaves the modelled fragment) *)
 Theorem C09_terminates_smtp : forall fuel c,
-  (weight c + 3 <= fuel)%nat ->
-  h_out (handle_smtp fuel c) = Returned \/ h_out (handle_smtp fuel c) = Unmodelled.
+  (weight c + 3 <= fuel)%nat -> smtp_end (h_out (handle_smtp fuel c)).
 Proof. exact handle_smtp_ends. Qed.
 
 (* idle deadlines waited out: at most one for the io.Copy handlers, dummy and ftp's control
@@ -136,7 +144,7 @@ Proof. exact ssh_strings_sound. Qed.
 Theorem C09_released_ftp : forall v6 dial fuel c,
   let h := handle_ftp v6 dial fuel c in
   (h_out h = Returned -> h_res h = res0 /\ h_late h = res0) /\
-  (h_out h = Panicked -> h_res h = mkRes 1 1 1 /\ h_late h = mkRes 1 1 1).
+  (h_out h = Panicked -> kept h = ftp_panic_kept (ftp_final_data v6 dial fuel c)).
 Proof. exact handle_ftp_res. Qed.
 
 (* every other service holds nothing when Handle is over, for any fuel and connection *)
@@ -149,7 +157,7 @@ Theorem C09_history_additive : forall s a b, history s (a ++ b) = res_add (histo
 Proof. exact history_app. Qed.
 
 (* N connections of the same kind: slope 0, for all N *)
-Theorem C09_history_flat : forall s c n, in_fragment s c -> history s (repeat c n) = res0.
+Theorem C09_history_flat : forall s c n, covered s c -> history s (repeat c n) = res0.
 Proof. exact history_repeat_zero. Qed.
 
 (* ---- vnc update-request queue (the service itself is only observed, part "sweep") ---- *)
@@ -252,14 +260,37 @@ Example C09_memcached_three_deadlines :
   h_out h = Returned /\ m_timeouts (c_m (h_conn h)) = 3%N.
 Proof. vm_compute. split; reflexivity. Qed.
 
+(* sessions that end in a recovered panic: smtp BDAT without a chunk size and ftp PORT with two
+   fields release everything; after PASV + a client that connected, PORT 1,2 keeps the accepted
+   data connection (the defect class); each is replayed on the implementation by the corpus *)
+Example C09_recovered_panics :
+  let port12 := [80;79;82;84;32;49;44;50;13;10]%N in
+  let smtp_c := mkConn [[72;69;76;79;32;120;13;10]%N; [77;65;73;76;32;70;82;79;77;58;60;97;64;98;62;13;10]%N; [66;68;65;84;13;10]%N] TEof m0 in
+  let ftp_c := mkConn [str_USER; str_PASS; port12] TEof m0 in
+  let ftp_k := mkConn [str_USER; str_PASS; str_PASV; port12] TEof m0 in
+  h_out (handle (mkScn Smtp false false DialNone) (fuel_for smtp_c) smtp_c) = Panicked /\
+  covered (mkScn Smtp false false DialNone) smtp_c /\
+  h_out (handle (mkScn Ftp false false DialNone) (fuel_for ftp_c) ftp_c) = Panicked /\
+  covered (mkScn Ftp false false DialNone) ftp_c /\
+  panic_keeps_data_conn (mkScn Ftp false false DialKnock) ftp_k /\
+  kept (handle (mkScn Ftp false false DialKnock) (fuel_for ftp_k) ftp_k) = mkRes 0 0 1.
+Proof.
+  cbv zeta. unfold covered, in_fragment, panic_keeps_data_conn.
+  split; [vm_compute; reflexivity|]. split; [split; [vm_compute; discriminate|intros (H & _); vm_compute in H; discriminate]|].
+  split; [vm_compute; reflexivity|].
+  split; [split; [vm_compute; discriminate|intros (_ & _ & H); vm_compute in H; discriminate]|].
+  split; [repeat split; vm_compute; reflexivity|vm_compute; reflexivity].
+Qed.
+
 (* the fragment hypothesis is not vacuous for ftp/smtp, and it does exclude something *)
 Example C09_fragment_nonvacuous :
   in_fragment (mkScn Smtp false false DialNone) (mkConn [[72;69;76;79;32;120;13;10]%N] TEof m0) /\
-  ~ in_fragment (mkScn Ftp false false DialNone) (mkConn [[80;79;82;84;32;49;13;10]%N] TEof m0).
+  ~ in_fragment (mkScn Ftp false false DialNone) (mkConn [[82;69;84;82;32;120;13;10]%N] TEof m0).
 Proof. unfold in_fragment; split; vm_compute; [discriminate|intros H; apply H; reflexivity]. Qed.
 
 Print Assumptions C09_terminates.
 Print Assumptions C09_released.
+Print Assumptions C09_released_ftp_panic_refuted.
 Print Assumptions C09_history_flat_all.
 Print Assumptions C09_full_holds.
 Print Assumptions C09_fragment_other_services.
